@@ -3,7 +3,7 @@ from . import robustgen as R
 
 ID = "C18"
 LEVEL = "proof"
-LEAN_MODULES = ["DracoProps.C18", "DracoProps.C18Kd"]
+LEAN_MODULES = ["DracoProps.C18", "DracoProps.C18Kd", "DracoProps.C18Eb"]
 RULE = ("valid streams of every method and the small .drc files of testdata (bitstream 1.1 .. 2.3); every count / size "
         "field candidate of the small streams (every offset; of larger streams the first 160 bytes plus sampled offsets) "
         "replaced as a fixed 32-bit field and as a re-encoded varint by {0, 1, 2, 255, 256, 2^16, 2^21, 2^24, 2^31-1, "
